@@ -82,8 +82,11 @@ def check_jsolve(R, drv, mod, istim, dt, inp):
         if not o_r["wf"]:        # hypothesis of the solver theorems: the schedule the code generated is a valid elimination order
             R.disagree("schedule-not-well-formed", input=ji, levels=[np.asarray(c).tolist() for c in (rec["idx"].children_in_level or [])],
                        parents=[np.asarray(c).tolist() for c in (rec["idx"].parents_in_level or [])])
-        if not o_r["sat"]:
+        if not o_r["piv"]:       # second hypothesis of `solve_correct`: no divisor of the elimination vanishes (exact arithmetic)
+            R.disagree("solver-meets-zero-pivot", input=ji)
+        if not o_r["sat"]:       # its conclusion, evaluated: the result satisfies every row of the system the arrays denote
             R.disagree("flat-solver-model-does-not-solve-its-system", input=ji)
+        R.count("jsolve:padding-identity" if o_r["pad"] else "jsolve:padding-not-identity")
         out = rec["out"]
         scale = 1.0 + float(np.max(np.abs(out)))
         xf, xr = np.asarray(o_f["x"]), np.asarray(o_r["x"])
